@@ -56,6 +56,8 @@ pub trait Maker {
     fn boxed(&self, v: u64) -> CBox<'static, Blob>;
     fn slice_box(&self, n: u32) -> CSliceBox<'static, u64>;
     fn into_counter(self) -> Self::C;
+    /// consumes the object and returns a plain value (nothing carries the context on)
+    fn finish(self) -> u64;
 }
 
 /// A heap-owning value whose construction/destruction is counted by its module.
@@ -202,6 +204,10 @@ impl Maker for MakerImp {
     fn into_counter(self) -> CounterImp {
         assert_eq!(self.blob.v, self.seed);
         CounterImp::new(self.seed ^ 0xC0)
+    }
+    fn finish(self) -> u64 {
+        assert_eq!(self.blob.v, self.seed);
+        mixv(self.seed, 0xF1)
     }
 }
 
